@@ -73,7 +73,18 @@ fn run(input: RunInput) -> ScenFuture {
         // half of the servers dispatch through anemo's typed-RPC path (rpc::server::Rpc::unary), the
         // way generated servers do
         let typed = w.flag("typed_server_path", 0.5);
-        let server = if typed { w.start_node(w.spec(2, cfg.clone()), TypedSvc(svc)).unwrap() } else { w.start_node(w.spec(2, cfg.clone()), svc).unwrap() };
+        // a service that exerts backpressure through poll_ready (tower's ConcurrencyLimit): a
+        // request abandoned while it waits for the service to become ready is dropped there and
+        // never reaches the handler
+        let backpressure = w.flag("server_backpressure", 0.3).then(|| w.param("service_concurrency", 1, 4) as usize);
+        let n_calls = if backpressure.is_some() { n_calls.min(40) } else { n_calls };
+        let server = match (typed, backpressure) {
+            (true, None) => w.start_node(w.spec(2, cfg.clone()), TypedSvc(svc)),
+            (false, None) => w.start_node(w.spec(2, cfg.clone()), svc),
+            (true, Some(k)) => w.start_node(w.spec(2, cfg.clone()), tower::limit::ConcurrencyLimit::new(TypedSvc(svc), k)),
+            (false, Some(k)) => w.start_node(w.spec(2, cfg.clone()), tower::limit::ConcurrencyLimit::new(svc, k)),
+        }
+        .unwrap();
         let client = Arc::new(w.start_node(w.spec(1, cfg.clone()), Svc::echo(&w)).unwrap());
         watch_events(&w, &client);
         if client.net.connect_with_peer_id(server.addr, server.peer_id).await.is_err() {
@@ -104,6 +115,7 @@ fn run(input: RunInput) -> ScenFuture {
                 2 => r.gen_range(50..1000),
                 _ => r.gen_range(1000..60_000),
             };
+            let handler_ms = if backpressure.is_some() { handler_ms.min(5_000) } else { handler_ms };
             let abandon_after_us = abandon.then(|| match r.gen_range(0..6) {
                 0 => 0,
                 1 => r.gen_range(1..2000),
@@ -200,6 +212,9 @@ fn run(input: RunInput) -> ScenFuture {
             }
             match (res.abandoned_at_ns, hs.first()) {
                 (Some(t_a), Some(s)) => {
+                    if s.at_ns > t_a + bound_ns {
+                        w.violate("handler-started-after-abandonment", "abandon", format!("call {}: abandoned at {} ms, yet its handler was started at {} ms (bound {} ms)", c.nonce, t_a / q_ns, s.at_ns / q_ns, bound_ns / q_ns));
+                    }
                     let known_at = t_a.max(s.at_ns);
                     let natural_end = s.at_ns + c.handler_ms * 1_000_000;
                     if natural_end > known_at + bound_ns {
